@@ -156,7 +156,7 @@ func baseClass(s string) string {
 
 func init() {
 	checks["C30"] = eng.Check{
-		Rule:        "memory-view address argument: EVERY string of length 1..4 over {0,1,7,9,a,f,g,x,X,b,B,-,+,_} (thorough: length 1..6 over the same characters plus o and O) plus boundary literals around 2^64 in every base, against an independent integer-literal parser (decimal, 0x/0X, 0b/0B, 0-prefixed octal; fits 64 bits); emulator prompt value: the same strings (plus 'o' forms, empty line) x widths {1,2,4,8} typed through the real line reader: typed integer modulo 2^(8w) as a w-byte constant, errors for empty input, underscores, malformed numbers; crashes are violations. Non-trivial = input that denotes a number.",
+		Rule:        "memory-view address argument: EVERY string of length 1..4 over {0,1,7,9,a,f,g,x,X,b,B,-,+,_} (thorough: length 1..6 over the same characters plus o and O) plus boundary literals around 2^64 in every base, against an independent integer-literal parser (decimal, 0x/0X, 0b/0B, 0-prefixed octal; fits 64 bits); emulator prompt value: the same strings (plus 'o' forms, empty line) x widths {1,2,4,8} (the boundary literals and all strings of length <=2 also at widths 16,31,32,33,40,64,128,255) typed through the real line reader: typed integer modulo 2^(8w) as a w-byte constant, errors for empty input, underscores, malformed numbers; crashes are violations. Non-trivial = input that denotes a number.",
 		Assumptions: []string{"'0', '00..' (zero in a 0-prefixed form) may be accepted as 0 or rejected, and a leading '+' may be accepted or rejected: the property text does not decide these"},
 		Run: func(r *eng.Run) {
 			alpha := []byte("0179afgxXbB-+_")
@@ -214,6 +214,30 @@ func init() {
 			strs = append(strs, extra...)
 			for _, s := range strs {
 				process(s)
+			}
+			// far end of the width range (8*w does not fit the 8-bit width type from w = 32 on):
+			// the boundary literals and every string of length <= 2 at widths 16..255
+			for _, s := range strs {
+				if len(s) > 2 && !strings.ContainsAny(s, "\n") {
+					found := false
+					for _, e := range extra {
+						found = found || e == s
+					}
+					if !found {
+						continue
+					}
+				}
+				if strings.ContainsAny(s, "\n") {
+					continue
+				}
+				for _, w := range []int{16, 31, 32, 33, 40, 64, 128, 255} {
+					f := c30Run(c30Case{Fn: "value", S: s, W: w})
+					r.Eval(1)
+					if f != nil {
+						r.Report(f)
+						r.Outcome(f.Sig)
+					}
+				}
 			}
 			// a few 'o' strings systematically
 			for _, s := range []string{"0o", "0o0", "0o7", "0o17", "0o8", "-0o17", "0O7", "0oa"} {
